@@ -34,6 +34,8 @@ def shards(tier: str, seed: int):
             out.append(["full", l1e])
     for part in range(4):
         out.append(["rootcache", part])
+    for flag in ("-O", "-OO"):
+        out.append(["interp", flag])
     for cover in ("exact", "l1end", "later", "l1end/noL2", "exact/noL2"):  # noL2: the DC omits the L2 key field when L2' = 31 (allowed shape)
         for part in range(4):
             out.append(["api", cover, part])
@@ -232,7 +234,50 @@ def rootcache_shard(acc, seed: int, part: int) -> None:
     acc.sample({"shared root-key cache": "2 SIDs x 2 L0 interleaved", "hash": rk.hash_name})
 
 
+def interp_child(seed: int) -> None:
+    """runs in a child interpreter started with -O / -OO (asserts compiled out, docstrings dropped): the boundary sub-lattice for one hash"""
+    import json as _json
+
+    from mc.runner import Acc
+
+    acc = Acc()
+    seams.block_network()
+    pos = [(a, b) for a in SUB for b in SUB]
+    rk, sd, l0 = keyset(seed, 0, "SHA256")
+    sweep(acc, rk, sd, l0, pos, pos)
+    out = [[k, e["case"], e["detail"]] for k, lst in acc.violations.items() for e in lst[:3]]
+    print("CHILDRESULT " + _json.dumps({"evaluations": acc.evaluations, "violations": out, "count": acc.violation_count}, default=str))
+
+
+def run_interp(seed: int, flag: str):
+    import json as _json
+    import os
+    import subprocess
+    import sys
+
+    from mc.runner import TARGET, VERIF
+
+    env = dict(os.environ, PYTHONHASHSEED="0", PYTHONDONTWRITEBYTECODE="1")
+    env.pop("PYTHONOPTIMIZE", None)
+    code = f"import sys; sys.path[:0] = [{TARGET!r}, {VERIF!r}]; from checks import c02; c02.interp_child({seed})"
+    r = subprocess.run([sys.executable, flag, "-c", code], env=env, capture_output=True, text=True, timeout=900)
+    line = next((ln for ln in r.stdout.splitlines() if ln.startswith("CHILDRESULT ")), None)
+    if line is None:
+        raise RuntimeError(f"child interpreter {flag} failed: {r.stderr[-400:]}")
+    return _json.loads(line[len("CHILDRESULT "):])
+
+
 def run_shard(shard, tier, seed, acc) -> None:
+    if shard[0] == "interp":
+        # the interpreter's optimisation level is part of the environment: the same sub-lattice under python -O / -OO
+        res = run_interp(seed, shard[1])
+        acc.ev(res["evaluations"])
+        acc.nt_counted(res["evaluations"])
+        for key, case, det in res["violations"]:
+            acc.violate(f"interp{shard[1]}." + key, ["interp", shard[1], case], det)
+        acc.outcome(f"interp{shard[1]}:" + ("viol" if res["count"] else "ok"))
+        acc.sample({"child interpreter": "python " + shard[1], "pairs": res["evaluations"]})
+        return
     if shard[0] == "rootcache":
         rootcache_shard(acc, seed, shard[1])
         return
@@ -256,6 +301,12 @@ def run_shard(shard, tier, seed, acc) -> None:
 
 
 def replay(case, seed, acc) -> None:
+    if case[0] == "interp":
+        acc.ev()
+        for key, c_, det in run_interp(seed, case[1])["violations"]:
+            if c_ == case[2]:
+                acc.violate(f"interp{case[1]}." + key, case, det)
+        return
     if case[0] in ("rootcache", "rootcache-protect"):
         rootcache_shard(acc, seed, case[1])
         for k in list(acc.violations):
